@@ -100,6 +100,49 @@ func checkReuse(c Case) error {
 	if !bytes.Equal(b1, b2) || !bytes.Equal(b1, want) {
 		return harness.Violatef("c17/bytes-twice", "Bytes called twice returns different bytes")
 	}
+	// Bytes twice at arbitrary points of the history (also inside a path,
+	// with a run still pending) returns equal bytes, and asking does not
+	// change what the finished stream decodes to.
+	{
+		var probe encode.Encoder
+		probe.Reset(c.bvb(), [64]color.RGBA(c.BPalette))
+		path := 0
+		for i, o := range c.BOps {
+			if o.K == ops.StartPath {
+				if path < len(c.BHi) {
+					switch c.BHi[path] {
+					case 1:
+						probe.HighResolutionCoordinates = true
+					case 2:
+						probe.HighResolutionCoordinates = false
+					}
+				}
+				path++
+			}
+			ops.Apply(&probe, o)
+			if (i*7+len(c.BOps))%5 == 0 {
+				x, e1 := probe.Bytes()
+				x = append([]byte{}, x...)
+				y, e2 := probe.Bytes()
+				if e1 != nil || e2 != nil || !bytes.Equal(x, y) {
+					return harness.Violatef("c17/bytes-twice", "after call %d (%v) Bytes called twice returns %d then %d bytes (%v, %v)", i, o.K, len(x), len(y), e1, e2)
+				}
+			}
+		}
+		pb, perr := probe.Bytes()
+		if perr != nil {
+			return harness.Violatef("c17/bytes-twice", "Bytes fails after intermediate Bytes calls: %v", perr)
+		}
+		r1, r2 := &ops.Recorder{}, &ops.Recorder{}
+		e1 := decode.Decode(r1, append([]byte{}, pb...))
+		e2 := decode.Decode(r2, want)
+		if e1 != nil || e2 != nil {
+			return harness.Violatef("c17/bytes-twice", "stream does not decode after intermediate Bytes calls: %v %v", e1, e2)
+		}
+		if d := ops.DiffOps(r1.Ops, r2.Ops); d != "" {
+			return harness.Violatef("c17/bytes-changes-stream", "asking for Bytes in the middle of the history changes what the finished stream decodes to: %s", d)
+		}
+	}
 	var fresh2 encode.Encoder
 	if w2, _ := encodeB(&fresh2, c); !bytes.Equal(w2, want) {
 		return harness.Violatef("c17/encoder-nondeterministic", "two fresh Encoders give different bytes for the same calls")
